@@ -203,7 +203,12 @@ def run(facts, tier, ctx):
         ectx = E.Ctx(facts)
         ectx.open_loops = True
         ectx.collect_asserts = True
-        ectx.noinline = [r"^coding::encode_fixed", r"feed_fixed", r"Context::new$", r"ParContext::", r"^par::encode_with"]
+        from . import lib_fill as _lf
+        try:
+            _fd = re.escape(_lf.feeder_body(facts).id)
+        except FactError:
+            _fd = r"<no feeder>"
+        ectx.noinline = [r"^coding::encode_fixed", _fd, r"Context::new$", r"ParContext::", r"^par::encode_with"]
         it = E.Interp(ectx, e)
         try:
             it.run()
